@@ -677,13 +677,13 @@ where
                                     });
                                 };
                                 // we can delete the buffered_lcs elem now:
-                                assert!(
-                                    buffered_lcs.contains(&lc2.id),
-                                    "buffered_lcs does not contain {} msg:{:?}",
-                                    lc2.id,
-                                    msg
-                                ); // logical error otherwise (prev lc still buffered but the newer one that is to be merged into the prev one not?)
-                                buffered_lcs.remove(&lc2.id);
+                                if !buffered_lcs.remove(&lc2.id) {
+                                    // lc2 was confirmed (and published) already but none of its msgs have been
+                                    // passed on yet (they are queued behind the msgs of the still buffered prev_lc).
+                                    // So withdraw it from the published lifecycles:
+                                    lcs_w.empty(lc2.id);
+                                    lcs_w.refresh();
+                                }
                                 remove_last_lc = true;
                                 // if we have no more yet, send the other msgs: (not possible as prev_lc exists)
                             } else {
@@ -719,8 +719,14 @@ where
                                             }
                                         });
                                     };
-                                    if !buffered_lcs.remove(&lc2.id) && moved_msgs != lc2_msgs {
-                                        println!("merged lc was not in buffered_lcs or its msgs not buffered anymore!\n {:?}\n {:?} msg #{}, moved_msgs={} vs {}", prev_lc, lc2, last_msg_index, moved_msgs, lc2_msgs);
+                                    if !buffered_lcs.remove(&lc2.id) {
+                                        // lc2 was confirmed (and published) already. As all its msgs are still buffered
+                                        // we withdraw it from the published lifecycles:
+                                        lcs_w.empty(lc2.id);
+                                        lcs_w.refresh();
+                                        if moved_msgs != lc2_msgs {
+                                            println!("merged lc was not in buffered_lcs or its msgs not buffered anymore!\n {:?}\n {:?} msg #{}, moved_msgs={} vs {}", prev_lc, lc2, last_msg_index, moved_msgs, lc2_msgs);
+                                        }
                                     }
                                     remove_last_lc = true;
                                 } else {
